@@ -98,6 +98,9 @@ pub enum Role {
     Puppet(u16, u16),
     /// tap index, subscription index
     Tap(u16, u16),
+    /// an instrumented iterator instance (leaf index, clone index): `Up Pull` = one next() call,
+    /// value = the item returned (none when exhausted). Not a protocol edge: no monitors.
+    Iter(u16, u16),
 }
 
 pub type EdgeId = usize;
@@ -116,6 +119,8 @@ pub struct Event {
     pub val: Val,
     pub err: i32,
     pub thread: u16,
+    /// Data deliveries in progress on this edge when this event was entered
+    pub inflight: u16,
 }
 
 #[derive(Clone, Debug)]
@@ -186,6 +191,7 @@ pub struct Inner {
     pub violations: Vec<Violation>,
     pub harness_faults: Vec<String>,
     pub errs: Vec<usize>,
+    pub err_labels: Vec<String>,
     /// when false the edge monitors do not raise C01..C04 violations (E4 uses its own oracle)
     pub monitors_on: bool,
     pub notes: Vec<String>,
@@ -223,6 +229,7 @@ impl World {
                 violations: vec![],
                 harness_faults: vec![],
                 errs: vec![],
+                err_labels: vec![],
                 monitors_on: true,
                 notes: vec![],
             }),
@@ -261,13 +268,14 @@ impl World {
         g.edges.len() - 1
     }
 
-    pub fn register_err(&self, e: &Arc<dyn std::error::Error + Send + Sync + 'static>) -> i32 {
+    pub fn register_err(&self, e: &Arc<dyn std::error::Error + Send + Sync + 'static>, label: &str) -> i32 {
         let p = Arc::as_ptr(e) as *const u8 as usize;
         let mut g = self.lock();
         if let Some(i) = g.errs.iter().position(|x| *x == p) {
             return i as i32;
         }
         g.errs.push(p);
+        g.err_labels.push(label.to_string());
         (g.errs.len() - 1) as i32
     }
 
@@ -301,6 +309,7 @@ impl World {
         let parent = g.stack.last().map(|x| *x as i32).unwrap_or(-1);
         let ev = g.events.len();
         let thread = THREAD_IX.with(|t| t.get());
+        let inflight = g.edges[edge].data_inflight as u16;
         g.events.push(Event {
             t_in,
             t_out: u32::MAX,
@@ -313,6 +322,7 @@ impl World {
             val,
             err,
             thread,
+            inflight,
         });
         g.stack.push(ev as u32);
         g.edges[edge].events.push(ev as u32);
@@ -391,11 +401,15 @@ pub fn push_violation(
 fn monitor(g: &mut Inner, edge: EdgeId, ev: EvId, dir: Dir, kind: Kind) {
     let on = g.monitors_on;
     let role = g.edges[edge].role;
+    if let Role::Iter(..) = role {
+        return;
+    }
     // which side of this edge is crate code?
     let (down_is_sut, up_is_sut) = match role {
         Role::Probe(_) => (true, false),
         Role::Puppet(..) => (false, true),
         Role::Tap(..) => (true, true),
+        Role::Iter(..) => (false, false),
     };
     let above = g.edges[edge].above.clone();
     let below = g.edges[edge].below.clone();
@@ -531,6 +545,7 @@ pub fn abstract_hash(g: &Inner) -> u64 {
             Role::Probe(i) => 0x1000 + i as u64,
             Role::Puppet(p, k) => 0x2000 + ((p as u64) << 4) + k as u64,
             Role::Tap(t, k) => 0x3000 + ((t as u64) << 4) + k as u64,
+            Role::Iter(t, k) => 0x4000 + ((t as u64) << 4) + k as u64,
         };
         crate::rng::fnv(&mut h, r);
         crate::rng::fnv(
